@@ -14,7 +14,7 @@ from ..astutil import Locals, call_name, calls_in, norm, region, short, where
 from ..core import PKG, Report
 from ..jinja_interp import expr_text
 from .c06 import MAY_RAISE, caught, handlers_around
-from .scenario import NONE, TooComplex, V, Walker, private_callees
+from .scenario import NONE, UNKNOWN, TooComplex, V, Walker, private_callees
 
 LEVEL = ("structural clauses: under every assignment of the conditions (those around a loop included, macros read in place) each parsed "
          "response gets exactly one status test, the loop that emits it emits a return, and `return None` only where the plain variants are "
@@ -27,10 +27,13 @@ LEVEL = ("structural clauses: under every assignment of the conditions (those ar
          "by empty_response carries the none source; in the scenarios no content / empty content / no schema every feasible path of the "
          "response parser (scenario walker: abstract None-ness / truthiness of locals, helpers walked with their arguments) ends in "
          "empty_response(...) without reaching property_from_data; construct-or-cast; a failing type check of a union member aborts decoding only when "
-         "nothing can follow it (truth table, flag found by role); _build_response forwards status, content, headers, parsed; "
+         "nothing can follow it (truth table, flag found by role); _build_response (read as Python from the expanded template: macros and call "
+         "blocks inlined, literal arguments folded) forwards status, content, headers, parsed; "
          "blocking/asyncio parity; in the scenario of an invalid status key every path ends the iteration with a diagnostic recorded and "
          "no response added; reference resolution converges (shared with C20); the source and the schema of a response come from one media "
-         "type (inductive invariant of the selecting loop, provenance tags); the builder renders each operation's module from that "
+         "type (provenance of both followed - locals, tuples, generators, next(), helpers, closures - to every Response(...) the parser "
+         "builds); for every property template with a construct macro the union decoder emits the member's construct outside try/except "
+         "only when nothing can follow (template facts x guard truth table); the builder renders each operation's module from that "
          "operation (shared with C16); the async httpx client is constructed with the arguments of the blocking one.")
 
 
@@ -89,11 +92,126 @@ def _subst(n: nodes.Node, binding: "dict[str, nodes.Node]") -> None:
                 _subst(x, binding)
 
 
+def _bind_macro_call(m: "nodes.Macro | None", call: Any) -> "dict[str, nodes.Node] | None":
+    """parameter -> argument expression of a macro call that can be bound statically (no *args / **kwargs, every parameter covered)"""
+    if m is None or not isinstance(call, nodes.Call) or call.dyn_args or call.dyn_kwargs:
+        return None
+    params = [a.name for a in m.args]
+    binding: "dict[str, nodes.Node]" = dict(zip(params[len(params) - len(m.defaults):], m.defaults)) if m.defaults else {}
+    binding.update(zip(params, call.args))
+    binding.update({k.key: k.value for k in call.kwargs})
+    if len(call.args) > len(params) or set(binding) != set(params):
+        return None
+    return binding
+
+
+def _is_caller(c: nodes.Node) -> bool:
+    return isinstance(c, nodes.Call) and isinstance(c.node, nodes.Name) and c.node.name == "caller" and not c.args and not c.kwargs
+
+
+def _splice_caller(body: "list[nodes.Node]", inner: "list[nodes.Node]") -> "list[nodes.Node] | None":
+    """the macro body with every `{{ caller() }}` replaced by the statements of the call block; None when `caller` is used in any other
+    way (filtered, with arguments, stored): then the text it contributes cannot be read in place"""
+    out: list[nodes.Node] = []
+    for n in body:
+        if isinstance(n, nodes.Output):
+            cur: list[nodes.Node] = []
+            for c in n.nodes:
+                if _is_caller(c):
+                    if cur:
+                        out.append(nodes.Output(cur, lineno=n.lineno))
+                        cur = []
+                    out += copy.deepcopy(inner)
+                elif any(isinstance(x, nodes.Name) and x.name == "caller" for x in c.find_all(nodes.Name)):
+                    return None
+                else:
+                    cur.append(c)
+            if cur:
+                out.append(nodes.Output(cur, lineno=n.lineno))
+            continue
+        n2 = copy.copy(n)
+        for fld in ("body", "else_"):
+            if isinstance(getattr(n, fld, None), list):
+                sub = _splice_caller(getattr(n, fld), inner)
+                if sub is None:
+                    return None
+                setattr(n2, fld, sub)
+        if isinstance(n, nodes.If):
+            n2.elif_ = []
+            for el in n.elif_:
+                el2 = copy.copy(el)
+                sub = _splice_caller(el.body, inner)
+                if sub is None:
+                    return None
+                el2.body = sub
+                n2.elif_.append(el2)
+        elif not any(isinstance(getattr(n, fld, None), list) for fld in ("body", "else_")) and \
+                any(x.name == "caller" for x in n.find_all(nodes.Name)):
+            return None
+        out.append(n2)
+    return out
+
+
+def _fold_expr(c: nodes.Node) -> nodes.Node:
+    """what an expression is once literal arguments have been substituted: a conditional expression / `not` / and / or over literals"""
+    if isinstance(c, nodes.CondExpr):
+        t = _fold_expr(c.test)
+        if isinstance(t, nodes.Const):
+            return _fold_expr(c.expr1) if t.value else (_fold_expr(c.expr2) if c.expr2 is not None else nodes.Const(""))
+    if isinstance(c, nodes.Not):
+        t = _fold_expr(c.node)
+        if isinstance(t, nodes.Const):
+            return nodes.Const(not t.value, lineno=c.lineno)
+    if isinstance(c, (nodes.And, nodes.Or)):
+        l, r = _fold_expr(c.left), _fold_expr(c.right)
+        if isinstance(l, nodes.Const):
+            return (r if l.value else l) if isinstance(c, nodes.And) else (l if l.value else r)
+    return c
+
+
+def _fold(body: "list[nodes.Node]") -> "list[nodes.Node]":
+    """Partial evaluation of an inlined macro body: an output expression that has become a literal is template text (adjacent pieces of
+    text are one piece), an `if` whose test has become a literal is the arm it selects.  `{{ name }}(` with name="sync" renders exactly
+    what the text `sync(` renders."""
+    out: list[nodes.Node] = []
+    for n in body:
+        if isinstance(n, nodes.Output):
+            cs: list[nodes.Node] = []
+            for c in n.nodes:
+                c = _fold_expr(c)
+                if isinstance(c, nodes.Const) and isinstance(c.value, (str, int)) and not isinstance(c.value, bool):
+                    c = nodes.TemplateData(str(c.value), lineno=getattr(c, "lineno", n.lineno) or n.lineno)
+                if isinstance(c, nodes.TemplateData) and cs and isinstance(cs[-1], nodes.TemplateData):
+                    cs[-1] = nodes.TemplateData(cs[-1].data + c.data, lineno=cs[-1].lineno)
+                else:
+                    cs.append(c)
+            out.append(nodes.Output(cs, lineno=n.lineno))
+            continue
+        if isinstance(n, nodes.If):
+            t = _fold_expr(n.test)
+            if isinstance(t, nodes.Const) and not n.elif_:
+                out += _fold(n.body if t.value else n.else_)
+                continue
+        n2 = copy.copy(n)
+        for fld in ("body", "else_"):
+            if isinstance(getattr(n, fld, None), list):
+                setattr(n2, fld, _fold(getattr(n, fld)))
+        if isinstance(n, nodes.If):
+            n2.elif_ = []
+            for el in n.elif_:
+                el2 = copy.copy(el)
+                el2.body = _fold(el.body)
+                n2.elif_.append(el2)
+        out.append(n2)
+    return out
+
+
 def _inline_macros(body: "list[nodes.Node]", resolve: Any, depth: int = 2) -> "list[nodes.Node]":
-    """The template body with every `{{ macro(args) }}` (filters such as `| indent(n)` aside) of a macro that `resolve` finds - defined in
-    the template or imported by name from another one - replaced by the macro's body, parameters substituted by the argument expressions:
-    moving a piece of a template into a macro and calling it in the same place renders the same text, so rules about what is emitted
-    under which conditions read the expanded template.  A call that cannot be bound statically (*args, unknown parameter) stays."""
+    """The template body with every `{{ macro(args) }}` (filters such as `| indent(n)` aside) and every `{% call macro(args) %}...{% endcall %}`
+    of a macro that `resolve` finds - defined in the template or imported by name from another one - replaced by the macro's body,
+    parameters substituted by the argument expressions (literal arguments folded: _fold) and `{{ caller() }}` by the call block's
+    statements: moving a piece of a template into a macro and calling it in the same place renders the same text, so rules about what is
+    emitted under which conditions read the expanded template.  A call that cannot be bound statically (*args, unknown parameter) stays."""
     out: list[nodes.Node] = []
     for n in body:
         if isinstance(n, nodes.Output) and depth > 0:
@@ -103,14 +221,7 @@ def _inline_macros(body: "list[nodes.Node]", resolve: Any, depth: int = 2) -> "l
                 while isinstance(call, nodes.Filter) and call.node is not None:
                     call = call.node
                 m = resolve(call.node.name) if isinstance(call, nodes.Call) and isinstance(call.node, nodes.Name) else None
-                binding: "dict[str, nodes.Node] | None" = None
-                if m is not None and not call.dyn_args and not call.dyn_kwargs:
-                    params = [a.name for a in m.args]
-                    binding = dict(zip(params[len(params) - len(m.defaults):], m.defaults)) if m.defaults else {}
-                    binding.update(zip(params, call.args))
-                    binding.update({k.key: k.value for k in call.kwargs})
-                    if len(call.args) > len(params) or set(binding) != set(params):
-                        binding = None
+                binding = _bind_macro_call(m, call)
                 if m is None or binding is None:
                     cur.append(c)
                     continue
@@ -120,9 +231,24 @@ def _inline_macros(body: "list[nodes.Node]", resolve: Any, depth: int = 2) -> "l
                 inlined = copy.deepcopy(m.body)
                 for x in inlined:
                     _subst(x, binding)
-                out += _inline_macros(inlined, resolve, depth - 1)
+                out += _inline_macros(_fold(inlined), resolve, depth - 1)
             if cur:
                 out.append(nodes.Output(cur, lineno=n.lineno))
+        elif isinstance(n, nodes.CallBlock) and depth > 0:
+            m = resolve(n.call.node.name) if isinstance(n.call, nodes.Call) and isinstance(n.call.node, nodes.Name) else None
+            binding = _bind_macro_call(m, n.call) if not n.args else None
+            spliced = None
+            if m is not None and binding is not None:
+                inlined = copy.deepcopy(m.body)
+                for x in inlined:
+                    _subst(x, binding)
+                spliced = _splice_caller(_fold(inlined), _inline_macros(n.body, resolve, depth))
+            if spliced is None:
+                n2 = copy.copy(n)
+                n2.body = _inline_macros(n.body, resolve, depth)
+                out.append(n2)
+            else:
+                out += _inline_macros(spliced, resolve, depth - 1)
         elif isinstance(n, (nodes.If, nodes.For, nodes.With, nodes.Scope, nodes.FilterBlock, nodes.AssignBlock)) and depth > 0:
             n2 = copy.copy(n)
             for fld in ("body", "else_"):
@@ -198,6 +324,14 @@ class _UnderRule:
     def ok(self, rule: str, construct: str, *a: Any, **k: Any) -> None:
         self._rep.ok(self._rule, construct, *a, **k)
 
+
+# R04.12, instances that fail on the repository as it is.  NOT exceptions by design: each is a defect of /repo the rule found, reported
+# (rep.observe + the hardening report) and kept out of the verdict only until it is listed in known_findings.json; one reason per line.
+R0412_REPORTED = {
+    "const_property.py.jinja": "GENUINE DEFECT: has construct, no check_type_for_construct -> a const member is emitted unguarded and "
+                               "terminal wherever it stands: response schema oneOf [const 'a', const 'b', integer] with body \"b\" (or 3) "
+                               "raises ValueError from _parse_response instead of being decoded",
+}
 
 # error handlers of bytes.decode that never raise
 LENIENT_DECODE = {"ignore", "replace", "backslashreplace", "surrogateescape"}
@@ -1039,7 +1173,7 @@ def run(rep: Report, ctx: Any) -> str:
         if reads(e, "media_type_schema"):
             return "schema-read"
         if isinstance(e, ast.Call):
-            last = call_name(e).rsplit(".", 1)[-1]
+            last = w.callee(e, st_)        # a local holding functools.partial(f, ...) reads as f
             return "decoded" if last == "property_from_data" else "empty" if last == "empty_response" else None
         return None
 
@@ -1071,77 +1205,110 @@ def run(rep: Report, ctx: Any) -> str:
 
     # ---- R04.10: the source and the schema of a response belong to one media type ------------------------------------------------
     # A response offered in several representations is decoded from ONE of them: the source (classifier applied to the media type key)
-    # and the schema (`.media_type_schema` of the media type object) must come from the same (key, object) pair of the content mapping.
-    # Stated as an inductive invariant of every loop that classifies its own key and reads its own object's schema (in the response
-    # parser or a private helper): on every path through one iteration - followed from a state in which everything the loop rebinds is
-    # unknown - that ends the iteration, leaves the loop or returns, the variables that outlive the loop (and a returned value) hold a
-    # source of THIS iteration if and only if they hold the schema of THIS iteration.  A source that is None is no source.  Both values
-    # are followed by provenance tags through copies, tuples and tests, not by name.  A comprehension whose element is built from both is
-    # paired by construction.
-    rep.rule("R04.10", "the media type whose key is classified is the media type whose schema is decoded: on every path through one "
-                       "iteration of a loop over the content's (key, media type) pairs, what outlives the iteration holds this "
-                       "iteration's source iff it holds this iteration's schema")
+    # and the schema (`.media_type_schema` of the media type object) must come from the same (key, object) entry of the content mapping.
+    # Stated at the place where the two meet, not on the construct that selects them: the values are followed by provenance through the
+    # response parser and its private helpers (scenario walker: locals, tuples, walrus targets, comprehension / generator elements,
+    # next(), helper parameters and results, closures).  An entry of the response's `.content` gets a site when a loop / comprehension
+    # binds it (`for k, m in content.items()`, `for k in content` with `content[k]` / `content.get(k)`); the classifier applied to a key
+    # of site S yields source@S, `.media_type_schema` of the media type of site S yields schema@S, property_from_data(data=schema@S)
+    # yields prop@S (prop@? for a schema of no known entry).  Tags of one iteration do not survive into the next one (the walker's loop
+    # head forgets them).  Every Response(...) the parser builds from a classified source or a decoded property must have both from the
+    # same single site - whether the selection is a for/else with break, a generator consumed by next(), a list of pairs searched
+    # afterwards or a helper that returns the pair.
+    rep.rule("R04.10", "the media type whose key is classified is the media type whose schema is decoded: every Response(...) the response "
+                       "parser builds from a classified source or a decoded property has source and prop from one entry of the "
+                       "response's content (provenance followed through locals, tuples, generators, helpers)")
+    pfd_fn = ix.func("properties.property_from_data")
+    pfd_params = [p.arg for p in [*pfd_fn.node.args.posonlyargs, *pfd_fn.node.args.args]]
+    r_fns = [rfd, *[h for h in r_helpers if h.name != sb.name]]
+    iter_nodes = {id(n.iter) for g in r_fns for n in ast.walk(g.node) if isinstance(n, (ast.For, ast.AsyncFor, ast.comprehension))}
+    busy: set[int] = set()
+
+    def sites(v: V, kind: str) -> set[str]:
+        return {t.split("@", 1)[1] for t in v.tags() if t.startswith(kind + "@")}
+
+    def resite(v: V, site: str) -> V:
+        """the element of an iterable, bound by one more loop: its sites are that loop's"""
+        return dataclasses.replace(v, tag=f"{v.tag}>{site}" if v.tag is not None and "@" in v.tag else v.tag,
+                                   elts=tuple(resite(x, site) for x in v.elts) if v.elts is not None else None,
+                                   item=resite(v.item, site) if v.item is not None else None)
+
+    def arg_value(c: ast.Call, name: str, index: "int | None", st_: Any, w: Any) -> "V | None":
+        node = next((k.value for k in c.keywords if k.arg == name), c.args[index] if index is not None and index < len(c.args) else None)
+        return w.peek(node, st_) if node is not None else None
+
+    def p_axiom(e: ast.AST, st_: Any, w: Any) -> "V | None":  # noqa: PLR0911, PLR0912
+        if reads(e, "content"):
+            return V(tag="content")
+        if id(e) in iter_nodes and id(e) not in busy:
+            busy.add(id(e))
+            try:
+                v = w.peek(e, st_)
+            finally:
+                busy.discard(id(e))
+            if v.tag == "content":
+                return V(none=False, item=V(tag=f"key@{id(e)}"))
+            if v.item is not None and any("@" in t for t in v.item.tags()):
+                return dataclasses.replace(v, item=resite(v.item, str(id(e))))
+            return None
+        if isinstance(e, ast.Subscript) and isinstance(e.ctx, ast.Load) and w.peek(e.value, st_).tag == "content":
+            ks = sites(w.peek(e.slice, st_), "key")
+            return V(none=False, tag=f"mt@{next(iter(ks))}") if len(ks) == 1 else None
+        if isinstance(e, ast.Attribute) and e.attr == "media_type_schema" and isinstance(e.ctx, ast.Load):
+            ms = sites(w.peek(e.value, st_), "mt")
+            return V(tag=f"schema@{next(iter(ms))}") if len(ms) == 1 else None
+        if not isinstance(e, ast.Call):
+            return None
+        last = w.callee(e, st_)
+        if isinstance(e.func, ast.Attribute):
+            recv = w.peek(e.func.value, st_)
+            if recv.tag == "content" and not e.keywords:
+                if e.func.attr == "items" and not e.args:
+                    return V(none=False, item=V(True, False, False, elts=(V(none=False, tag=f"key@{id(e)}"), V(none=False, tag=f"mt@{id(e)}"))))
+                if e.func.attr == "keys" and not e.args:
+                    return V(none=False, item=V(none=False, tag=f"key@{id(e)}"))
+                if e.func.attr == "get" and e.args:
+                    ks = sites(w.peek(e.args[0], st_), "key")
+                    return V(tag=f"mt@{next(iter(ks))}") if len(ks) == 1 else None
+            if recv.tag is not None and recv.tag.startswith("key@") and last != sb.name:
+                return V(none=False, tag=recv.tag)       # a string derived from the key (lower(), strip(), ...) is still this entry's key
+        if last == sb.name:
+            ks = set().union(*[sites(w.peek(a, st_), "key") for a in [*e.args, *[k.value for k in e.keywords]]])
+            return V(tag=f"source@{next(iter(ks))}") if len(ks) == 1 else None
+        if last == "property_from_data":
+            d = arg_value(e, "data", pfd_params.index("data") if "data" in pfd_params else None, st_, w)
+            ss = sites(d, "schema") if d is not None else set()
+            return V(True, False, False, elts=(V(tag=f"prop@{next(iter(ss)) if len(ss) == 1 else '?'}"), UNKNOWN))
+        return None
+
+    built_from: dict[tuple, int] = {}       # (sites of the source, sites of the prop) of a Response(...) -> line
+
+    def p_event(e: ast.AST, st_: Any, w: Any) -> None:
+        if isinstance(e, ast.Call) and w.callee(e, st_) == "Response":
+            src = arg_value(e, "source", r_fields.index("source") if "source" in r_fields else None, st_, w)
+            prp = arg_value(e, "prop", r_fields.index("prop") if "prop" in r_fields else None, st_, w)
+            key = (tuple(sorted(sites(src, "source"))) if src is not None else (), tuple(sorted(sites(prp, "prop"))) if prp is not None else ())
+            built_from.setdefault(key, e.lineno)
+
+    try:
+        Walker(rfd, axiom=p_axiom, event=p_event, inline=r_fns[1:]).run()
+    except TooComplex as e:
+        rep.require(False, f"paths of response_from_data few enough to follow ({e})")
     selections = 0
     unpaired: list[str] = []
-    for g in [rfd, *r_helpers]:
-        lc_g = Locals(g.node)
-
-        def of_target(e: ast.AST, targets: set[str], lc_g: Locals = lc_g) -> bool:
-            names = {n.id for n in ast.walk(e) if isinstance(n, ast.Name)}
-            for n in list(names):
-                if n not in targets and len(lc_g.values_of(n)) == 1:     # one level through a local: `key = content_type.lower()`
-                    names |= {x.id for x in ast.walk(lc_g.values_of(n)[0]) if isinstance(x, ast.Name)}
-            return bool(names & targets)
-
-        def classified(c: ast.AST, targets: set[str]) -> bool:
-            return isinstance(c, ast.Call) and call_name(c).rsplit(".", 1)[-1] == sb.name and \
-                any(of_target(a, targets) for a in [*c.args, *[k.value for k in c.keywords]])
-
-        def schema_of(a: ast.AST, targets: set[str]) -> bool:
-            return reads(a, "media_type_schema") and of_target(a.value, targets)
-
-        for comp in [n for n in ast.walk(g.node) if isinstance(n, (ast.ListComp, ast.SetComp, ast.GeneratorExp, ast.DictComp))]:
-            targets = {n.id for gen in comp.generators for n in ast.walk(gen.target) if isinstance(n, ast.Name)}
-            elt_parts = [comp.key, comp.value] if isinstance(comp, ast.DictComp) else [comp.elt]
-            has_src = any(classified(x, targets) for part in [*elt_parts, *[i for gen in comp.generators for i in gen.ifs]] for x in ast.walk(part))
-            has_sch = any(schema_of(x, targets) for part in elt_parts for x in ast.walk(part))
-            if has_src and has_sch:
-                selections += 1
-        for lp in [n for n in ast.walk(g.node) if isinstance(n, (ast.For, ast.AsyncFor))]:
-            targets = {n.id for n in ast.walk(lp.target) if isinstance(n, ast.Name)}
-            body_ids = {id(x) for part in lp.body for x in ast.walk(part)}
-            src_ids = {id(x) for part in lp.body for x in ast.walk(part) if classified(x, targets)}
-            sch_ids = {id(x) for part in lp.body for x in ast.walk(part) if schema_of(x, targets)}
-            if not (src_ids and sch_ids):
-                continue
-            selections += 1
-            live = {n.id for n in ast.walk(g.node) if isinstance(n, ast.Name) and isinstance(n.ctx, ast.Load) and id(n) not in body_ids}
-            try:
-                outs = Walker(g, axiom=lambda e, st_, w, src_ids=src_ids, sch_ids=sch_ids:
-                              V(tag="source") if id(e) in src_ids else V(tag="schema") if id(e) in sch_ids else None,
-                              inline=[h for h in private_callees(ix, g) if h.name != sb.name]).run()
-            except TooComplex as e:
-                rep.require(False, f"paths of {short(g)} few enough to follow ({e})")
-            for o in outs:
-                if o.kind in ("iter-end", "break") and o.node is lp:
-                    held: set[str] = set()
-                    for nm in live:
-                        if nm in o.st.env:
-                            held |= o.st.env[nm].tags()
-                    how = "ends an iteration" if o.kind == "iter-end" else "leaves the loop"
-                elif o.kind == "return" and id(o.node) in body_ids:
-                    held, how = o.value.tags(), "returns from the loop"
-                else:
-                    continue
-                if ("source" in held) != ("schema" in held):
-                    msg = f"{short(g)}: a path {how} with this media type's {'source' if 'source' in held else 'schema'} but not its " \
-                          f"{'schema' if 'source' in held else 'source'} (line {getattr(o.node, 'lineno', '?')})"
-                    if msg not in unpaired:
-                        unpaired.append(msg)
+    for (s_sites, p_sites), line in sorted(built_from.items()):
+        if not s_sites and not p_sites:
+            continue            # neither classified nor decoded: an empty response
+        selections += 1         # counted by role: Response constructions from a classified source / a decoded property
+        if len(s_sites) == 1 and s_sites == p_sites:
+            continue
+        unpaired.append(f"the Response built at line {line} takes its source from "
+                        f"{'the key of one content entry' if len(s_sites) == 1 else 'no single classified content entry'} and its prop from "
+                        f"{'the schema of another entry' if p_sites and '?' not in p_sites else 'a schema that is not known to be that entry' + chr(39) + 's' if p_sites else 'no decoded schema'}")
     rep.check(not unpaired, "R04.10", "response_from_data::source-and-schema-from-one-media-type",
               "the source and the schema of a response can come from different media types of its content: the body is read one way and "
               "decoded as the other representation's type; " + "; ".join(unpaired[:2]), where(rfd, rfd.node), lhs=unpaired[:4],
-              rhs="what outlives an iteration holds the iteration's source iff it holds the iteration's schema")
+              rhs="Response(source=<classifier(key of entry S)>, prop=<property_from_data(data=<entry S>.media_type_schema)>) with one S")
     rep.floor("media_type_selections", selections, 1)
 
     # ---- R04.3 ----------------------------------------------------------------------------------------------------------
@@ -1155,20 +1322,54 @@ def run(rep: Report, ctx: Any) -> str:
               where=f"{PKG}/templates/{et.name}", lhs=[len(direct), len(casts)], rhs="direct when types agree, else cast")
 
     # ---- R04.4 ------------------------------------------------------------------------------------------------------------
-    br = next((f for f in top if f.kind == "data" and "def _build_response(" in f.text), None)
-    rep.require(br, "_build_response")
-    alltxt = "".join(f.text if f.kind == "data" else "X" for f in top)
-    br.text = alltxt[alltxt.index("def _build_response("):alltxt.index("def sync_detailed(")]
-    for kw in ("status_code=HTTPStatus(response.status_code)", "content=response.content", "headers=response.headers",
-               "parsed=_parse_response(client=client, response=response)"):
-        rep.check(kw in br.text, "R04.4", f"_build_response::{kw.split('=')[0]}", f"_build_response does not forward {kw.split('=')[0]}",
-                  where=f"{PKG}/templates/{et.name}:{br.line}", lhs=kw, rhs="present")
-    data = "".join(f.text for f in top if f.kind == "data")
-    rep.check(re.search(r"return sync_detailed\(\s*\n?\s*\n?\s*\)\.parsed", re.sub(r"\s+", " ", data).replace(" ", "")) is not None or
-              ").parsed" in data and "return sync_detailed(" in data, "R04.4", "sync::parsed-of-detailed", "sync is not sync_detailed(...).parsed",
-              where=f"{PKG}/templates/{et.name}")
-    rep.check("return (await asyncio_detailed(" in data and ")).parsed" in data, "R04.4", "asyncio::parsed-of-detailed", "asyncio is not (await asyncio_detailed(...)).parsed",
-              where=f"{PKG}/templates/{et.name}")
+    # Read on the functions the (expanded) template writes: the text is cut at the top-level `def` / `async def` lines, whichever
+    # macro or call block wrote them; _build_response has no template logic inside and is read as Python (what it returns, by keyword,
+    # locals followed), the plain variants by what their return statement wraps.
+    alltxt = "".join(f.text if f.kind == "data" else "__expr__" for f in top)
+    heads = list(re.finditer(r"^(?:async[ \t]+def|def)[ \t]+(\w+)[ \t]*\(", alltxt, re.M))
+    chunks: dict[str, list[str]] = {}
+    for i, h in enumerate(heads):
+        chunks.setdefault(h.group(1), []).append(alltxt[h.start():heads[i + 1].start() if i + 1 < len(heads) else len(alltxt)])
+    rep.require(len(chunks.get("_build_response", ())) == 1, "_build_response (one definition)")
+    br_line = next((f.line for f in top if f.kind == "data" and "_build_response(" in f.text), 0)
+    # the function ends where its indented block ends: the shortest run of lines, cut in front of a line that starts at column 0, that
+    # is one function definition (what follows may be template text that is captured or emitted elsewhere)
+    br_lines = chunks["_build_response"][0].split("\n")
+    br_fn = None
+    for end in [i for i in range(1, len(br_lines)) if br_lines[i][:1].strip()] + [len(br_lines)]:
+        try:
+            mod = ast.parse("\n".join(br_lines[:end]))
+        except SyntaxError:
+            continue
+        if len(mod.body) == 1 and isinstance(mod.body[0], ast.FunctionDef):
+            br_fn = mod.body[0]
+            break
+    rep.require(isinstance(br_fn, ast.FunctionDef), "_build_response readable as Python")
+    br_lc = Locals(br_fn)
+    built_resp = [c for r in ast.walk(br_fn) if isinstance(r, ast.Return) and r.value is not None
+                  for c in [_follow(r.value, br_lc)] if isinstance(c, ast.Call) and call_name(c).rsplit(".", 1)[-1] == "Response"]
+    rep.require(built_resp, "return Response(...) in _build_response")
+
+    def forwards(c: ast.Call, kw: str) -> bool:
+        v = _follow(next((k.value for k in c.keywords if k.arg == kw), None), br_lc)
+        if v is None:
+            return False
+        if kw == "status_code":
+            return any(norm(x) == "response.status_code" for x in ast.walk(v))
+        if kw == "parsed":
+            return isinstance(v, ast.Call) and call_name(v) == "_parse_response" and \
+                {k.arg: norm(_follow(k.value, br_lc)) for k in v.keywords} == {"client": "client", "response": "response"} and not v.args
+        return norm(v) == f"response.{kw}"
+
+    for kw in ("status_code", "content", "headers", "parsed"):
+        rep.check(all(forwards(c, kw) for c in built_resp), "R04.4", f"_build_response::{kw}", f"_build_response does not forward {kw}",
+                  where=f"{PKG}/templates/{et.name}:{br_line}", lhs=[norm(c)[:200] for c in built_resp],
+                  rhs=f"{kw}=<response.{kw}>" if kw != "parsed" else "parsed=_parse_response(client=client, response=response)")
+    flat = {nm: [re.sub(r"\s+", "", t) for t in ts] for nm, ts in chunks.items()}
+    rep.check(bool(flat.get("sync")) and all(re.search(r"return\(?sync_detailed\(.*\)\)?\.parsed", t) for t in flat["sync"]), "R04.4", "sync::parsed-of-detailed",
+              "sync is not sync_detailed(...).parsed", where=f"{PKG}/templates/{et.name}")
+    rep.check(bool(flat.get("asyncio")) and all(re.search(r"return\(awaitasyncio_detailed\(.*\)\)\.parsed", t) for t in flat["asyncio"]), "R04.4",
+              "asyncio::parsed-of-detailed", "asyncio is not (await asyncio_detailed(...)).parsed", where=f"{PKG}/templates/{et.name}")
 
     # ---- R04.5 --------------------------------------------------------------------------------------------------------------
     # Stated on paths: in the scenario "HTTPStatus(...) raises ValueError" (wherever the conversion sits: in _add_responses or in a
@@ -1251,6 +1452,56 @@ def run(rep: Report, ctx: Any) -> str:
                   "alternative listed before a model makes from_dict / the response parser raise TypeError", where=f"{PKG}/templates/{ut.name}:{f.line}",
                   lhs=[g for g, _ in f.guards], rhs="implies loop.last and not ns.contains_unmodified_properties")
     rep.floor("bare_type_raises", n_b, 1)
+    # ---- R04.12: the same condition for the member's construct itself, decided per member template -----------------------------------
+    # What the union decoder emits for a member depends on two facts about the member's template: whether it has a `construct` macro and
+    # whether it has a `check_type_for_construct` macro.  A member's construct emitted outside try/except ends the decoding: whatever
+    # it raises leaves the response parser, and the `return` after it makes every later member unreachable.  So, for every property
+    # template T that defines `construct`: under every assignment of the loop's guard atoms in which the two template facts have the
+    # values they have for T, the construct call is emitted outside a try only when nothing can follow (last member, no unmodified
+    # member).  The two sibling tables (templates with `construct` / with `check_type_for_construct`) and the union's guards are read
+    # together, so adding a construct macro without a type check, dropping a type check, or loosening the union's guard are the same
+    # finding.
+    rep.rule("R04.12", "for every property template that defines `construct`: with the template's own facts (has construct / has "
+                       "check_type_for_construct) the union decoder emits the member's construct outside try/except only for the last "
+                       "member when no unmodified member can still accept the value")
+    has_check = {f"{a}.check_type_for_construct" for a in aliases}
+
+    def member_construct(n: Any) -> bool:
+        while isinstance(n, nodes.Filter) and n.node is not None:
+            n = n.node
+        return isinstance(n, nodes.Call) and isinstance(n.node, nodes.Getattr) and n.node.attr == "construct" and \
+            isinstance(n.node.node, nodes.Name) and n.node.node.name in aliases
+
+    emitted = [f for f in frs if f.kind == "expr" and f.loops == (MEMBERS,) and member_construct(f.node)]
+    rep.require(emitted, "call of the member template's construct macro in the union construct loop")
+    unguarded = [f for f in emitted if "try:" not in arms_txt.get(f.guards, "")]
+    n_tpl = 0
+    for tname, t in sorted(jx.templates.items()):
+        if not tname.startswith("property_templates/") or "construct" not in t.macros or t is ut:
+            continue
+        n_tpl += 1
+        checked = "check_type_for_construct" in t.macros
+        bad_env = None
+        for f in unguarded:
+            names = tplq.guard_atoms(f)
+            for env in tplq.assignments(names):
+                if any(env.get(a) is False for a in has_construct) or any(a in env and env[a] != checked for a in has_check):
+                    continue
+                if tplq.guard_holds(f, env) and (env.get(unmod) or not env.get("loop.last", True)):
+                    bad_env = env
+                    break
+            if bad_env:
+                break
+        short_name = tname.rsplit("/", 1)[-1]
+        if bad_env is not None and short_name in R0412_REPORTED:
+            rep.observe(f"R04.12 {short_name}: {R0412_REPORTED[short_name]}")
+            continue
+        rep.check(bad_env is None, "R04.12", f"union_property.py.jinja::construct::member[{short_name}]::unguarded-only-when-nothing-follows",
+                  f"a union member rendered by {short_name} ({'with' if checked else 'without'} check_type_for_construct) gets its construct "
+                  f"outside try/except although decoding could continue (e.g. {bad_env}): a value of a later alternative raises out of the "
+                  "response parser instead of being decoded", where=f"{PKG}/templates/{tname}",
+                  lhs={"check_type_for_construct": checked}, rhs="construct inside try/except unless last member and no unmodified member")
+    rep.floor("member_templates_with_construct", n_tpl, 5)
     casts2 = [f for f in frs if f.kind == "data" and not f.loops and "return cast(" in f.text]
     # emitted exactly when an unmodified member exists: both directions by truth table over the guard's atoms
     rep.check(bool(casts2) and tplq.implies(casts2[0], unmod, True) and
